@@ -94,6 +94,39 @@ def run(tier, seed):
                     break
             else:
                 chk.nontrivial(('ramp_unit', c['id'], pre))
+    # ... and profile plants (start / shutdown profiles, heat bounds, profile frequency, ordinary ramp limit) realised UNDER other main time
+    # units with rates and durations re-expressed: the same behaviours of the profile automaton, the same reachable patterns
+    pcfgs = [c for c in c06.fam_ramp_profiles(5, thorough=th, seed=seed) if c['run0'] == 0 or c['heat']][seed % 3::3]
+    pbehs, st = c06.enumerate_ramp(pcfgs)
+    chk.add_tlc(st)
+    for c in pcfgs:
+        reach = {tuple(bool(s_['on']) for s_ in b['steps']) for b in pbehs.get(c['id'], [])}
+        for m in ('min', 'd'):
+            selp = dict(check='ramp_profiles_under_unit', mtu=m, heat=c['heat'], ramp_freq=c.get('rfreq') or 'grid', ramp=c.get('ramp', -1) >= 0)
+            try:
+                real = c06.RampReal(c, mtu=m)
+            except Exception as e:
+                chk.violation(dict(selp, check='setup_raises', error=type(e).__name__), 'set-up raised %s: %s' % (type(e).__name__, e), dict(cfg=c))
+                continue
+            ok = True
+            for b in pbehs.get(c['id'], []):
+                chk.cnt['eval_ramp_profiles_under_unit'] += 1
+                stt, val, x = real.prob.solve(real.pins(b['steps']))
+                if stt != 'optimal' or abs(val - b['val']) > 1e-6 * max(1, abs(val)):
+                    chk.violation(selp, 'behaviour of the profile automaton %s under main time unit %s' % ('is infeasible' if stt != 'optimal' else 'is priced %.9g instead of %.9g' % (val, b['val']), m),
+                                  dict(cfg=c, behaviour=b))
+                    ok = False
+                    break
+            for pat in itertools.product((False, True), repeat=c['T']):
+                chk.cnt['eval_patterns'] += 1
+                feas = real.prob.solve(real.pins([dict(on=o) for o in pat], what=('on',)))[0] == 'optimal'
+                if feas != (pat in reach):
+                    chk.violation(dict(selp, check='ramp_pattern_depends_on_unit'), 'pattern %s under main time unit %s: implementation %s, profile automaton %s' % (
+                        ''.join('1' if o else '0' for o in pat), m, feas, pat in reach), dict(cfg=c))
+                    ok = False
+                    break
+            if ok:
+                chk.nontrivial(('ramp_under_unit', c['id'], m))
     chk.assumptions += ['rates (capacities, inflow, holding cost) and durations are re-expressed by the harness for each main time unit',
                         'unequal steps: calendar days across the CET switches and calendar months']
     return chk.finish(rule='families with every per-time quantity (units), unequal steps (dst, months), discounting, split; each realised under %s; '
